@@ -369,22 +369,24 @@ def parse_wire(wire):
     return out, wire[pos:]
 
 
-def expectation(reqs):
+def expectation(reqs, big_first=False):
     """What the property demands of the pipeline, in order:
-    list of dict(idx, asks, final = "app"|"error", body)"""
+    list of dict(idx, asks, final = "app"|"error", body); big_first: the scenario
+    application answers request 0 with its body three times (three write_soon)"""
     out = []
     for r in reqs:
         if r.refused:
             out.append({"idx": r.idx, "asks": r.asks, "final": "error", "body": None, "last": True})
             break
         last = r.close
-        out.append({"idx": r.idx, "asks": r.asks, "final": "app", "body": expected_app_body(r), "last": last})
+        out.append({"idx": r.idx, "asks": r.asks, "final": "app", "body": expected_app_body(r), "last": last,
+                    "mult": 3 if (big_first and r.idx == 0) else 1})
         if last:
             break
     return out
 
 
-def monitor(reqs, wire, calls, checks=(), complete=True, waited=()):
+def monitor(reqs, wire, calls, checks=(), complete=True, waited=(), big_first=False):
     """The executable form of C19 over what the client received and what the
     application was called with.  complete: the whole script ran (every request
     was sent and served) so every expected final response must be present.
@@ -392,7 +394,7 @@ def monitor(reqs, wire, calls, checks=(), complete=True, waited=()):
     response before sending the body (exactly one required).
     -> list of problem strings (empty = property holds on this run)"""
     problems = []
-    exp = expectation(reqs)
+    exp = expectation(reqs, big_first)
     resps, rest = parse_wire(wire)
     if rest:
         problems.append("unparsable or truncated bytes on the wire: %r" % rest[:60])
@@ -418,7 +420,7 @@ def monitor(reqs, wire, calls, checks=(), complete=True, waited=()):
         if e["idx"] in waited and n_interim != 1:
             problems.append("request %d: the client waited but %d interim responses precede its final response" % (e["idx"], n_interim))
         if e["final"] == "app":
-            if fin[1] != "200" or fin[2] != e["body"]:
+            if fin[1] != "200" or fin[2] != e["body"] * e["mult"]:
                 problems.append("request %d: final response %s %r, expected the application's answer %r" % (
                     e["idx"], fin[1], fin[2][:120], e["body"][:120]))
         else:
@@ -446,7 +448,6 @@ def monitor(reqs, wire, calls, checks=(), complete=True, waited=()):
     for idx, n_seen, _ in checks:
         # at a check point the waiting client must have its interim response: count the
         # asking requests up to idx that are expected to be answered
-        need = sum(1 for e in exp if e["idx"] <= idx and e["asks"] and e["idx"] in [c[0] for c in checks])
         if n_seen < 1:
             problems.append("request %d: the client waits for 100 Continue and has not received it" % idx)
     return problems
@@ -511,6 +512,28 @@ def channel_signature(path=None):
             if isinstance(n, ast.Attribute) and n.attr in ("sent_continue", "send_continue"):
                 others.append("%s touches %s" % (name, n.attr))
     out += sorted(set(others))
+    # the parser side: where expect_continue / completed are assigned
+    ppath = os.path.join(os.path.dirname(path), "parser.py")
+    ptree = ast.parse(open(ppath).read())
+
+    def walk(node, ctx):
+        for child in ast.iter_child_nodes(node):
+            c = ctx
+            if isinstance(child, (ast.FunctionDef, ast.ClassDef)):
+                c = ctx + [child.name]
+            elif isinstance(child, ast.If):
+                c = ctx + ["if " + ast.unparse(child.test)]
+            if isinstance(child, (ast.Assign, ast.AugAssign)):
+                tgts = child.targets if isinstance(child, ast.Assign) else [child.target]
+                for tg in tgts:
+                    if isinstance(tg, ast.Attribute) and tg.attr == "expect_continue":
+                        out.append("parser.py %s: %s" % (" / ".join(x for x in ctx if not x.startswith("if ") or "version" in x),
+                                                         ast.unparse(child)))
+                    if isinstance(tg, ast.Name) and tg.id == "expect":
+                        out.append("parser.py %s: %s" % (" / ".join(x for x in ctx if not x.startswith("if ") or "version" in x),
+                                                         ast.unparse(child)))
+            walk(child, c)
+    walk(ptree, [])
     return out
 
 
@@ -520,3 +543,389 @@ def model_signature():
     if not m:
         return None
     return [l[3:] if l.startswith("   ") else l for l in m.group(1).split("\n")]
+
+
+# ---------------------------------------------------------------------------
+# (b) interleaved scenarios on the World; K-chanexpect
+
+
+def _flags(p):
+    return (1 if p.completed else 0, 1 if p.expect_continue else 0, 1 if p.headers_finished else 0,
+            1 if p.body_rcv is not None else 0, 1 if p.empty else 0)
+
+
+def make_world(reqs, client_script, schedule=(), policy=None, lookahead=0, n_workers=1, granularity="locks",
+               send_plan=(), big_first=False, max_steps=20000):
+    """A chan_world.World whose channel reports what K-chanexpect needs:
+    parser calls (flags before / after), send_continue (who, on what),
+    write_soon (for which request), received() entry / exit.  Client script
+    steps: ("send", bytes) | ("wait_interim", k) (park until k interim responses
+    are on the wire) | ("wait_wire", n) | ("close",)."""
+    from harness import chan_world as cw
+    from harness.sched import Op
+
+    calls = []
+    inner_app = make_app(calls)
+
+    def app(environ, start_response):
+        if big_first and environ.get("PATH_INFO") == "/r0":
+            body = app_body(environ)
+            calls.append(body)
+            start_response("200 OK", [("Content-Length", str(len(body) * 3)), ("Content-Type", "text/plain")])
+            return [body, body, body]
+        return inner_app(environ, start_response)
+
+    class W(cw.World):
+        def __init__(self, *a, **kw):
+            cw.World.__init__(self, *a, **kw)
+            self.next_pid = 0
+            self.kf_hits = []
+            self.app_calls = calls
+
+        def pid(self, p):
+            i = getattr(p, "_c19_id", None)
+            if i is None:
+                i = self.next_pid
+                self.next_pid += 1
+                p._c19_id = i
+            return i
+
+        def snap(self):
+            ch = self.channel
+            if ch is None:
+                return None
+            g = lambda n: object.__getattribute__(ch, n)
+            rq = g("request")
+            return {
+                "req": None if rq is None else (getattr(rq, "_c19_id", None),) + _flags(rq),
+                "reqs": [(getattr(r, "_c19_id", None),) + _flags(r) for r in g("requests")],
+                "sc": 1 if g("sent_continue") else 0,
+                "closing": 1 if (g("will_close") or g("close_when_flushed")) else 0,
+                "con": 1 if g("connected") else 0,
+            }
+
+        def _make_channel_class(self):
+            base = cw.World._make_channel_class(self)
+            from waitress.parser import HTTPRequestParser
+            world = self
+
+            class TracingParser(HTTPRequestParser):
+                def received(self, data):
+                    fresh = getattr(self, "_c19_id", None) is None
+                    pid = world.pid(self)
+                    before = _flags(self)
+                    sn = world.snap()
+                    if fresh and sn is not None:
+                        sn["req"] = None     # the model creates the object in the same step as the call
+                    world.sched.note("parse_call", (pid, before, sn))
+                    n = HTTPRequestParser.received(self, data)
+                    world.sched.note("parse", (pid, before, _flags(self), n, len(data)))
+                    return n
+
+            class C19Channel(base):
+                parser_class = TracingParser
+
+                def received(self, data):
+                    world.sched.note("received_enter", None)
+                    try:
+                        return base.received(self, data)
+                    finally:
+                        world.sched.note("received_exit", world.snap())
+
+                def send_continue(self):
+                    rq = object.__getattribute__(self, "request")
+                    me = world.sched.me()
+                    if rq.completed:
+                        world.kf_hits.append(getattr(rq, "path", None))
+                    world.sched.note("send_continue", (world.pid(rq), 1 if rq.completed else 0, me.name if me else "-"))
+                    r = base.send_continue(self)
+                    world.sched.note("send_continue_done", world.snap())
+                    return r
+
+                def write_soon(self, data):
+                    n = base.write_soon(self, data)
+                    if data:
+                        rs = object.__getattribute__(self, "requests")
+                        world.sched.note("write_soon", (getattr(rs[0], "_c19_id", None) if rs else None, n))
+                    return n
+
+            return C19Channel
+
+        def _client_main(self):
+            for step in self.client_script:
+                if step[0] == "wait_interim":
+                    k = step[1]
+                    self.sched.yield_(Op("client:wait_interim", k,
+                                         enabled=lambda k=k: self.wire.count(INTERIM) >= k or self.sock.closed))
+                else:
+                    saved = self.client_script
+                    self.client_script = [step]
+                    try:
+                        cw.World._client_main(self)
+                    finally:
+                        self.client_script = saved
+
+    w = W(app, client_script, schedule=schedule, policy=policy,
+          adj_kw={"max_request_body_size": MAX_BODY, "channel_request_lookahead": lookahead},
+          n_workers=n_workers, granularity=granularity, send_plan=send_plan, max_steps=max_steps)
+    snaps = {}
+    w.sched.observer = lambda sched, t, op: w.snap()
+    return w
+
+
+def world_script(reqs, mode="same_read"):
+    """Client scripts in which the client WAITS for the interim response of every
+    asking request that has a body, and sends the body only then.
+    mode same_read: every head is sent as early as possible (heads of the
+    following requests in the same send as the previous body); later_read: one
+    send per head."""
+    script = []
+    waited = []
+    n_interims = 0
+    pend = b""
+    for r in reqs:
+        head, payload = r.head(), r.payload()
+        if r.asks and payload and not r.refused:
+            pend += head
+            script.append(("send", pend))
+            pend = b""
+            n_interims += 1
+            waited.append(r.idx)
+            script.append(("wait_interim", n_interims))
+            if mode == "same_read":
+                pend = payload
+            else:
+                script.append(("send", payload))
+        else:
+            pend += head + payload
+            if mode != "same_read":
+                script.append(("send", pend))
+                pend = b""
+    if pend:
+        script.append(("send", pend))
+    return script, waited
+
+
+def ev_of(before, after):
+    bc, be, bh, bb, bm = before
+    ac, ae, ah, ab, am = after
+    se = "n" if ae == be else ("t" if ae else "f")
+    if bc:
+        return "n"
+    if bb:
+        return "b:%d" % ac
+    if after == before:
+        return "n"
+    if am and not bm and ac and ah:
+        return "e"
+    if ac and not ah:
+        return "a:%s:%d" % (se, ab)
+    return "h:%s:%d:%d" % (se, ab, ac)
+
+
+def model_run(world):
+    """Map the run to choices of Model/ChanExpect.v.
+    -> (choices, observed) with observed[k] = abstract real state after choice k
+    (None where no comparison point exists), plus the real append log."""
+    ev = world.sched.events
+    ch = world.channel
+    RL = object.__getattribute__(ch, "requests_lock").name
+    OL = object.__getattribute__(ch, "outbuf_lock").lock.name
+    snaps = world.sched.snaps
+    keys = sorted(snaps)
+
+    def snap_after(k):
+        i = bisect.bisect_right(keys, k)
+        return snaps[keys[i]] if i < len(keys) else world.snap()
+
+    choices, observed = [], []
+    out = []                 # real append log as model tokens
+    active = []              # thread names in model order
+    io_in_send = False
+    n = len(ev)
+    # lookahead helpers
+    def next_io(k, kinds):
+        for j in range(k + 1, n):
+            t, kind, d = ev[j]
+            if t == "io" and kind in kinds:
+                return j, kind, d
+        return None, None, None
+
+    def emit(c, obs):
+        choices.append(c)
+        observed.append((obs, list(out)))
+
+    k = 0
+    while k < n:
+        t, kind, d = ev[k]
+        if t == "io":
+            if kind == "acquire" and d == RL:
+                emit("E", None)
+            elif kind == "parse":
+                pid, before, after, cons, dlen = d
+                # what follows: another parser call, or the end of received()
+                j, k2, d2 = next_io(k, {"parse_call", "received_exit"})
+                more = 1 if k2 == "parse_call" else 0
+                js, _, _ = next_io(k, {"send_continue"})
+                sends = js is not None and (j is None or js < j)
+                obs = None
+                if not sends:
+                    obs = d2[2] if k2 == "parse_call" else d2
+                emit("P:%s:%d" % (ev_of(before, after), more), obs)
+                if sends:
+                    pass
+            elif kind == "send_continue":
+                io_in_send = True
+                out.append("I%di" % d[0])
+            elif kind == "send_continue_done" and io_in_send:
+                io_in_send = False
+                j, k2, d2 = next_io(k, {"parse_call", "received_exit"})
+                obs = d2[2] if k2 == "parse_call" else d2
+                emit("S", obs)
+            elif kind == "decide":
+                if d[0] == "connected":
+                    emit("d", None)
+                elif d[0] in ("will_close",):
+                    emit("w", None)
+        elif t.startswith("waitress"):
+            if kind == "service_start":
+                active.append(t)
+                emit("T", None)
+                emit("B%d" % active.index(t), None)
+            elif kind == "write_soon":
+                out.append("F%s" % d[0])
+                emit("W%d" % active.index(t), None)
+            elif kind == "acquire" and d == RL and t in active:
+                i = active.index(t)
+                # close or keep?  look ahead in this thread up to its release of RL
+                close = False
+                sends = False
+                rel = None
+                for j in range(k + 1, n):
+                    t2, k2, d2 = ev[j]
+                    if t2 != t:
+                        continue
+                    if k2 == "decide" and d2[0] == "close_when_flushed":
+                        close = True
+                    if k2 == "send_continue":
+                        sends = True
+                    if k2 == "release" and d2 == RL:
+                        rel = j
+                        break
+                emit("X%d:%d" % (i, 1 if close else 0), None)
+                # everything the section reads and writes happens between this acquire and
+                # the thread's next labelled operation: compare there
+                if close:
+                    emit("C%d" % i, snap_after(k))
+                    active.remove(t)
+                elif sends:
+                    emit("K%d" % i, snap_after(k))
+                else:
+                    emit("K%d" % i, snap_after(k))
+                    active.remove(t)
+            elif kind == "send_continue" and t in active:
+                out.append("I%dw" % d[0])
+            elif kind == "send_continue_done" and t in active:
+                i = active.index(t)
+                emit("D%d" % i, d)
+                active.remove(t)
+            elif kind == "decide" and d[0] == "will_close":
+                emit("w", None)
+        k += 1
+    return choices, observed
+
+
+def parse_model_state(s):
+    """one state string of the runner -> dict comparable with World.snap()"""
+    if s == "DISABLED":
+        return None
+    kv = dict(tok.split("=", 1) for tok in s.split(" "))
+
+    def rq(x):
+        return tuple(int(v) for v in x.split(":"))
+
+    def lst(x):
+        x = x[1:-1]
+        return [y for y in x.split(",") if y]
+    return {
+        "req": None if kv["req"] == "none" else rq(kv["req"]),
+        "reqs": [rq(x) for x in lst(kv["reqs"])],
+        "sc": int(kv["sc"]),
+        "closing": 1 if (kv["wc"] == "1" or kv["cwf"] == "1") else 0,
+        "con": int(kv["con"]),
+        "out": lst(kv["out"]),
+        "bad": lst(kv["bad"]),
+        "lab": lst(kv["lab"]),
+    }
+
+
+def compare_run(world, runner):
+    """K-chanexpect for one run: every mapped transition must be enabled in the
+    model and lead to the same abstract state.  -> (n_steps, problem or None)"""
+    choices, observed = model_run(world)
+    if not choices:
+        return 0, None, choices
+    ans = runner.query(["run " + " ".join(choices)])[0].split(" ; ")
+    for k, c in enumerate(choices):
+        if k >= len(ans) or ans[k] == "DISABLED":
+            return k, "model step %d (%s) is not enabled in the model" % (k, c), choices
+        m = parse_model_state(ans[k])
+        obs, out = observed[k]
+        if m["out"] != out:
+            return k, "after step %d (%s): output log differs: model %r, real %r" % (k, c, m["out"], out), choices
+        if obs is not None:
+            for f in ("req", "reqs", "sc", "closing", "con"):
+                if m[f] != (obs[f] if f not in ("reqs",) else [tuple(x) for x in obs[f]]) and not (
+                        f == "req" and obs[f] is not None and m[f] is not None and tuple(obs[f]) == m[f]):
+                    return k, "after step %d (%s): %s differs: model %r, real %r" % (k, c, f, m[f], obs[f]), choices
+    # the class of F5/F6 is the model's `bad`
+    last = parse_model_state(ans[len(choices) - 1])
+    if bool(last["bad"]) != bool(world.kf_hits):
+        return len(choices), "model bad=%r but real send_continue-on-completed hits=%r" % (last["bad"], world.kf_hits), choices
+    return len(choices), None, choices
+
+
+def concurrent_flush(world):
+    """F18 (property C04): some thread calls socket.send while ANOTHER thread
+    holds outbuf_lock -- the unlocked `_flush_some` of handle_write running
+    against a locked flush (worker-side send_continue, write_soon)."""
+    ch = world.channel
+    cond = object.__getattribute__(ch, "outbuf_lock")
+    OL, CV = cond.lock.name, cond.name
+    owner = None
+    for t, kind, d in world.sched.events:
+        if kind == "acquire" and d == OL:
+            owner = t
+        elif kind == "try_acquire" and d == OL:
+            if owner is None:
+                owner = t
+        elif kind == "release" and d == OL:
+            owner = None
+        elif kind == "wait" and d == CV:
+            owner = None
+        elif kind == "wake" and isinstance(d, list) and d and d[0] == CV:
+            owner = t
+        elif kind == "reacquire" and d == OL:
+            owner = t
+        elif kind == "sock_send" and owner is not None and owner != t:
+            return True
+    return False
+
+
+def world_monitor(world, reqs, waited, verdict, big_first=False):
+    """C19 on one interleaved run: the wire, the application calls, and the
+    client is not left parked waiting for an interim response."""
+    problems = []
+    for name, kind, detail in (world.blocked_at_end or []):
+        if name == "client":
+            problems.append("the client is left waiting at quiescence: %s %r (wire has %d interim responses)" % (
+                kind, detail, world.wire.count(INTERIM)))
+    if verdict == "overrun":      # an unfair schedule spinning in the poll loop: no verdict
+        return []
+    for t, kind, d in world.sched.events:
+        if kind == "crash":
+            problems.append("thread %s crashed: %s" % (t, d))
+    complete = not any(n == "client" for n, _, _ in (world.blocked_at_end or [])) and not world.sock.closed
+    problems += monitor(reqs, world.wire, world.app_calls, (), complete=complete,
+                        waited=waited if complete else (), big_first=big_first)
+    return problems
